@@ -91,7 +91,7 @@ def lowprec_stream(ctx):
     # large buckets) averages the same half-precision tensors over the same group, so the gradients agree
     for b in range(ctx.budget(3, 24)):
         base = kfacsim.Config(rng, world=rng.choice([2, 3, 4]), method=rng.choice(['inverse', 'eigen']), prediv=False)
-        base.inv16, base.inv32, base.fac32, base.fac16, base.keepgrad = False, False, False, True, False
+        base.inv16, base.inv32, base.fac32, base.fac16, base.keepgrad = False, False, False, (True if b % 2 == 0 else 'f16'), False
         base.hyper['kl_clip'] = None
         base.hyper['inv_update_steps'] = 1
         base.hyper['factor_update_steps'] = 1
@@ -118,7 +118,7 @@ def lowprec_stream(ctx):
                    for l in range(len(g0[si][0])) if kfacsim.relerr(g[si][r][l], g0[si][0][l]) > 1e-6]
             if bad:
                 si, r, l, e = bad[0]
-                ctx.fail(f'bfloat16 factors: step {si}, layer {l}, rank {r} with {v.k} gradient workers and bucket cap {v.cap_mb} MB '
+                ctx.fail(f'half-precision factors ({"float16" if v.fac16 == "f16" else "bfloat16"}): step {si}, layer {l}, rank {r} with {v.k} gradient workers and bucket cap {v.cap_mb} MB '
                          f'differs by {e:.2e} from rank 0 with {vs[0].k} workers and cap {vs[0].cap_mb} MB',
                          dict(v.describe(), base_k=vs[0].k, base_cap=vs[0].cap_mb), 'placement-dependent-halffactors')
                 break
